@@ -631,7 +631,16 @@ def cache_session(args):
                         for e in r["trace"])
                     keep = [l for l in log.split("\n") if " - INFO - " not in l]
                     ar["log_tail"] = "\n".join(keep[-14:])[-1500:]
-                if used and os.path.exists(used[-1]) and o.get("gtf_repr") != "db" and o.get("annotated", True):
+                # the database is digested after the session: meaningless if a PEER removed / re-created that file during the step
+                tl_used = None
+                if used:
+                    for dpath, dname in dirs:
+                        if used[-1].startswith(dpath + os.sep):
+                            tl_used = dname + used[-1][len(dpath):]
+                peer_rewrote = bool(tl_used) and any(e[0] == "ev" and e[2] != ai and e[3].split(":", 1)[1] == "remove:" + tl_used
+                                                     for e in r["trace"])
+                ar["db_rewritten_by_peer"] = peer_rewrote
+                if used and os.path.exists(used[-1]) and o.get("gtf_repr") != "db" and o.get("annotated", True) and not peer_rewrote:
                     try:
                         ar["db_digest"] = _db_digest(used[-1])
                     except Exception as e:
